@@ -64,6 +64,9 @@ func checkC17(p *load.Program, r *kit.Report) {
 		if g := resolvePH(p, r, "GUARD-DOM", ph); g != nil {
 			m := headersMutators(p)
 			kk := newKeyer()
+			// "unmarking makes the header acceptable again": a trimmed header stays in the long-lived
+			// height map, so `already known` may only be answered from the branches
+			checkNilReturnsJustified(p, r, "GUARD-DOM", ph, g, m.EffectsIn(ph))
 			for _, e := range m.EffectsIn(ph) {
 				ok, path := kit.DominatedByEdges(ph, e.Instr, g.notInvalid, nil, p.Pos)
 				r.Check(ok, "GUARD-DOM", kk.key("ProcessHeader/invalid-before:"+e.Desc), posOf(p, e.Instr), "behind the invalid-list loop",
